@@ -61,16 +61,18 @@ theorem delete_footprint {s : Sess} (ok : SessOk s) (i : Nat) (k : Nat) (hd : Ha
 
 /-- in the persistent reference an operation on tree `i` leaves every other tree as it is -/
 theorem refStep_other (ts : List Tree) (op : Op) (j : Nat) (hj : j < ts.length)
-    (hne : match op with | .insert i _ => i ≠ j | .delete i _ => i ≠ j | .freeze i => i ≠ j | _ => True) :
+    (hne : op.target ≠ some j) :
     (refStep ts op)[j]? = ts[j]? := by
   cases op with
   | new t io ca => simp [refStep, List.getElem?_append_left hj]
   | insert i e =>
+    have hne' : i ≠ j := fun e => hne (by simp [Op.target, e])
     simp only [refStep]
-    cases ts[i]? <;> simp [List.getElem?_set, hne]
+    cases ts[i]? <;> simp [List.getElem?_set, hne']
   | delete i k =>
+    have hne' : i ≠ j := fun e => hne (by simp [Op.target, e])
     simp only [refStep]
-    cases ts[i]? <;> simp [List.getElem?_set, hne]
+    cases ts[i]? <;> simp [List.getElem?_set, hne']
   | clone i io =>
     simp only [refStep]
     cases ts[i]? with
@@ -80,7 +82,8 @@ theorem refStep_other (ts : List Tree) (op : Op) (j : Nat) (hj : j < ts.length)
       | none => simp [hc]
       | some c => simp [hc, List.getElem?_append_left hj]
   | freeze i =>
+    have hne' : i ≠ j := fun e => hne (by simp [Op.target, e])
     simp only [refStep]
-    cases ts[i]? <;> simp [List.getElem?_set, hne]
+    cases ts[i]? <;> simp [List.getElem?_set, hne']
 
 end Model.BTreeCow
